@@ -689,6 +689,45 @@ int main(int argc, char **argv)
         });
         rep().sample("parcpy-sweep", fmt("\"what\":\"parcpy and parSetZero for every size in [0,18432] and around mined constants (%zu sizes) x team arguments 3,5,6,7,11,13,64, member order alternating identity/reversed\"", sv.size()), 1);
     }
+    if (part == "serial" && only < 0)
+    {
+        // team-argument sweep of the transforms: EVERY thread-count argument 1..17 (thorough ..34) x sizes up to 256 rows
+        // (thorough 2048) x every phase count 1..4: the split of batches / rows over the team must cover all of them
+        // whatever the quotient and the remainder are; member order identity and reversed
+        std::vector<Scn> sw;
+        for (int kind : {K_NTT, K_INTT, K_EXT})
+            for (u64 n : (th ? std::vector<u64>{32, 64, 128, 256, 512, 1024, 2048} : std::vector<u64>{32, 64, 128, 256}))
+                for (u64 ph : {1ULL, 2ULL, 3ULL, 4ULL})
+                {
+                    if (kind == K_EXT) sw.push_back({K_EXT, n / 2, n, 1, ph, 1, 1, 0, 0, 0, 0, 0, 0});
+                    else sw.push_back({kind, n, 0, 1, ph, 1, 1, 0, 0, 0, 0, 0, 0});
+                }
+        const int TMAX = th ? 34 : 17;
+        fork_pool((long)sw.size(), args.jobs, [&](long i) {
+            long long st = 0, tr = 0;
+            ts::set_mode(ts::SERIAL);
+            ts::set_order_fn(nullptr);
+            const Scn &s = sw[i];
+            Exec ref = execute(s, 1);
+            for (int T = 2; T <= TMAX; T++)
+                for (int rev = 0; rev < 2; rev++)
+                {
+                    ts::set_order_fn([rev](int, int TT) { std::vector<int> r(TT); for (int k = 0; k < TT; k++) r[k] = rev ? TT - 1 - k : k; return r; });
+                    Exec x = execute(s, T);
+                    st++;
+                    tr += (long long)x.regions.size();
+                    std::string sched = rev ? "order=reversed" : "order=identity";
+                    for (auto &c : x.conflicts) { report_conflict(s, T, sched, c); break; }
+                    if (x.out != ref.out) { rep().viol(fmt("C12.order-dependent.%s", kname[s.kind]), scnstr(s, T) + " " + sched, "output differs from the single-member execution"); break; }
+                }
+            rep().stat("states", st);
+            rep().stat("transitions", tr);
+            rep().stat("evaluations", tr);
+            rep().stat("distinct_nontrivial", st);
+            rep().stat("team_sweep_executions", st);
+        });
+        rep().sample("team-sweep", fmt("\"what\":\"NTT / INTT / extendPol with every thread-count argument 2..%d against 1, sizes 32..%d, phases 1..4, member order identity and reversed\",\"scenarios\":%zu", TMAX, th ? 2048 : 256, sw.size()), 1);
+    }
     rep().sample("scenario", "\"case\":\"" + scnstr(S[S.size() / 3], 3) + "\",\"part\":\"" + part + "\"", 1);
     rep().stat("scenarios", (long long)S.size());
     rep().flush();
